@@ -160,6 +160,8 @@ def run(rec, cfg):
         rec.arm("episodes:end:" + status)
         if len(ep.steps) >= 3:
             rec.nontrivial(("episode", text, tuple(ep.steps)))
+    if cfg.shard == 5 % cfg.nshards:
+        RC.wide_ints(rec, rules)
     for src, text, hints in RC.start_texts(cfg, rng, n, equations=0.25):
         if cfg.out_of_time():
             rec.truncated = True
